@@ -35,9 +35,18 @@ RULE = (
     "2**64+1, floats, rationals, I. Non-trivial: >=6 nodes, >=1 symbol and a subtraction/division/reciprocal/half-power shape "
     "(trees); an unsupported node below the root (unsupported); >=3 names whose integers differ in digit count "
     "(keys; an embedded integer >= 2**53 comes with a neighbour at distance 1-2); an integer that is not exactly a "
-    "double and >=1 symbol (integers). distinct = distinct canonical case strings"
+    "double and >=1 symbol (integers). Class symbolforms: one name in several of the forms sympy hands symbols out in "
+    "(Symbol, Dummy, Wild, with a leading / trailing underscore, with assumptions, numbered_symbols, the replacement "
+    "symbols of cse, anonymous Dummy, odd but legal names) inside one expression (special shapes, linear / product / "
+    "mixed combinations, random trees with their symbols replaced), also as a tuple of its symbols and itself; one "
+    "symbol in twelve of every other class takes such a form; non-trivial: >= 2 symbols that print differently and "
+    "share their .name. distinct = distinct canonical case strings"
 )
 ASSUMPTIONS = [
+    "symbols are identified by their PRINTED name (str): the neutral tree and every dialect key symbols by that "
+    "string, so symbols that print differently (x, Dummy('x') = _x, Wild('x') = x_) take independent values in every "
+    "assignment and must come back independent; symbols that print alike (Symbol('x') with and without assumptions, "
+    "Symbol('_x') and Dummy('x')) cannot be told apart by a text-keyed form and share one value",
     "value comparison at 5 real assignments per case (positive, negative, small mixed, large mixed, moderate mixed), "
     "relative 1e-9 plus 1e-25 x the largest intermediate magnitude; rationals and floats of the input are rounded to "
     "double first (the accepted loss: rationals become floats)",
@@ -96,8 +105,26 @@ _KEYS = {"natural_key": [], "natural_key_revlex": []}
 _LIB = {}
 
 
+_PNAMES = {}
+
+
+def _pname(sym):
+    """the name a sympy symbol is known by outside sympy: its PRINTED form (a Dummy("x") prints as _x, a Wild("x") as
+    x_, an anonymous Dummy as _Dummy_<n>).  The neutral tree and every dialect identify symbols by that string, so two
+    symbols that print differently are different symbols and take independent values; two that print alike (Symbol("x")
+    with and without assumptions, Symbol("_x") and Dummy("x")) cannot be told apart by any text-keyed form and share
+    one value"""
+    hit = _PNAMES.get(sym)
+    if hit is None:
+        hit = _PNAMES[sym] = str(sym)
+        if len(_PNAMES) > 20000:
+            _PNAMES.clear()
+    return hit
+
+
 def classes(tier):
-    return ["special", "random", "unevaluated", "numeric", "unsupported", "tuple", "keys", "history", "integers"]
+    return ["special", "random", "unevaluated", "numeric", "unsupported", "tuple", "keys", "history", "integers",
+            "symbolforms"]
 
 
 # ============================================================================ reference interpreter
@@ -258,7 +285,7 @@ def ev_sympy(e, env, st):
     if isinstance(e, (int, float, complex)):
         return _num(st, e)
     if isinstance(e, S.Symbol):
-        return _fin(st, env(e.name), True)
+        return _fin(st, env(_pname(e)), True)
     if isinstance(e, S.Integer):
         return _fin(st, MP.mpf(int(e)), True)
     if isinstance(e, S.Rational):
@@ -367,7 +394,7 @@ def _declare(e):
     try:
         for s in e.free_symbols:
             if s.is_positive:
-                _POS.add(s.name)
+                _POS.add(_pname(s))
     except Exception:
         pass
 
@@ -438,7 +465,7 @@ def compare_values(ref, eval_fn, obj):
 
 def _names_of(obj):
     try:
-        return {s.name for s in obj.free_symbols}
+        return {_pname(s) for s in obj.free_symbols}
     except Exception:
         out = set()
 
@@ -531,7 +558,7 @@ def ex_sympy(e, env, strict):
     if isinstance(e, (int, float, complex)):
         return _xnumber(e, strict), False
     if isinstance(e, S.Symbol):
-        return env(e.name), True
+        return env(_pname(e)), True
     if isinstance(e, S.Integer):
         return Fraction(int(e)), False
     if isinstance(e, S.Rational):
@@ -1050,7 +1077,43 @@ def rand_symbol(rng):
         return S.Symbol(nm, real=True)
     if r < 0.18:
         return S.Symbol(nm, positive=True)
+    if r < 0.26:
+        return symbol_form(rng, S, nm)
     return S.Symbol(nm)
+
+
+ODD_NAMES = ["{x}", "x'", "x y", "\u03b1", "x.y", "x-1", "2x", "x^2", "x[0", "\\x", "x:y", "<x>", "x,y", "(x)"]
+
+
+def symbol_form(rng, S, nm):
+    """a symbol in one of the other forms sympy hands symbols out in: every one is an instance of sympy.Symbol (the
+    single-dispatch target), prints under a name of its own and is, to sympy, a different symbol from Symbol(nm)"""
+    kind = rng.choice(["dummy", "dummy", "wild", "underscore-before", "underscore-after", "dummy-assumption",
+                       "anonymous-dummy", "numbered", "odd-name", "lambda-variable", "cse"])
+    if kind == "dummy":
+        return S.Dummy(nm)
+    if kind == "wild":
+        return S.Wild(nm)
+    if kind == "underscore-before":
+        return S.Symbol("_" + nm)
+    if kind == "underscore-after":
+        return S.Symbol(nm + "_")
+    if kind == "dummy-assumption":
+        return S.Dummy(nm, real=True) if rng.random() < 0.5 else S.Dummy(nm, positive=True)
+    if kind == "anonymous-dummy":
+        return S.Dummy()
+    if kind == "numbered":
+        g = S.numbered_symbols(nm, cls=rng.choice([S.Symbol, S.Dummy]), start=rng.choice([0, 1, 9, 10]))
+        return next(g)
+    if kind == "odd-name":
+        return S.Symbol(rng.choice(ODD_NAMES))
+    if kind == "lambda-variable":
+        # Lambda replaces its variable by a Dummy only when asked to; its canonical variable is what users see
+        return S.Lambda(S.Symbol(nm), S.Symbol(nm) ** 2).variables[0] if rng.random() < 0.5 else S.Dummy(nm.upper())
+    # the replacement symbols of a common-subexpression elimination run with Dummy symbols
+    x = S.Symbol(nm)
+    repl, _ = S.cse([S.sin(x + 1) + S.cos(x + 1)], symbols=S.numbered_symbols(nm, cls=S.Dummy))
+    return repl[0][0] if repl else S.Dummy(nm)
 
 
 def rand_number(rng, allow_zero=True):
@@ -1750,6 +1813,61 @@ def _run_case(ctx):
             _judge_back(ctx, v, back, f"history {kind} (after earlier translations)", bad,
                         check="history-value" if before else "roundtrip-value")
             before = True
+        return
+
+    if cls == "symbolforms":
+        # one name in several of the forms sympy hands symbols out in (plain, Dummy, Wild, with an underscore, with
+        # assumptions, numbered, from cse / Lambda), all inside ONE expression: symbols that print differently are
+        # different symbols and have to come back as different symbols - they get independent values here
+        nm = rng.choice(NAMES[:8])
+        base = S.Symbol(nm)
+        rel = [symbol_form(rng, S, nm) for _ in range(rng.choice([1, 1, 2, 3]))]
+        syms = [base] + rel
+        rng.shuffle(syms)
+        shapes = special_shapes()
+        pick = rng.random()
+        if pick < 0.45:
+            label, mk = shapes[ctx.index % len(shapes)]
+            a, b, c = (syms + [rand_symbol(rng), rand_symbol(rng)])[:3]
+            e = _gen(mk, S, a, b, c)
+        elif pick < 0.8:
+            label = "combination"
+            ks = [rng.choice([2, 3, -1, S.Rational(1, 2), 5, -4]) for _ in syms]
+            e = _gen(lambda: rng.choice([
+                lambda: S.Add(*[k * v for k, v in zip(ks, syms)]),
+                lambda: S.Mul(*[v ** (1 + i) for i, v in enumerate(syms)]),
+                lambda: syms[0] / syms[-1] + S.sin(syms[0] - syms[-1]),
+                lambda: (syms[0] - syms[-1]) * S.exp(syms[-1]) + syms[0] ** syms[-1],
+                lambda: S.cos(syms[0]) * syms[-1] - S.cos(syms[-1]) * syms[0],
+            ])())
+        else:
+            label = "tree"
+            t0 = _gen(rand_tree, rng, rng.randint(2, 4))
+            fs = sorted(getattr(t0, "free_symbols", ()), key=_pname)
+            e = t0.xreplace({old: rng.choice(syms) for old in fs}) if fs else S.Add(*syms)
+            e = e + syms[0] - 2 * syms[-1]
+        printed = {_pname(v) for v in getattr(e, "free_symbols", ())}
+        plain_names = {getattr(v, "name", "") for v in getattr(e, "free_symbols", ())}
+        ctx.mon.note(f"symbolforms:printed-names-{min(len(printed), 4)}")
+        for v in getattr(e, "free_symbols", ()):
+            ctx.mon.note("symbolforms:type:" + type(v).__name__)
+        ctx.describe(f"symbolforms {label} {srepr_short(e)}", len(printed) >= 2 and len(plain_names) < len(printed))
+        _roundtrip(ctx, e, f"symbolforms {label}")
+        if ctx.index % 3 == 0 and isinstance(e, S.Basic):
+            from orquestra.quantum.circuits.symbolic.sympy_expressions import SYMPY_DIALECT, expression_from_sympy
+            from orquestra.quantum.circuits.symbolic.translations import translate_tuple
+
+            parts = tuple(sorted(getattr(e, "free_symbols", ()), key=_pname)) + (e,)
+            try:
+                back = translate_tuple(tuple(expression_from_sympy(p) for p in parts), SYMPY_DIALECT)
+            except Exception as ex:
+                _judge_refusal(ctx, e, ex, "translate_tuple", f"symbolforms {label} tuple", unsupported_nodes(e))
+            else:
+                ok = len(back) == len(parts)
+                ctx.check("tuple-roundtrip", ok, lambda: f"symbolforms tuple of {len(parts)} came back with {len(back)} entries")
+                if ok:
+                    for p_in, p_out in zip(parts, back):
+                        _judge_back(ctx, p_in, p_out, f"symbolforms {label} tuple", unsupported_nodes(p_in), check="tuple-roundtrip")
         return
 
     if cls == "integers":
